@@ -54,12 +54,12 @@ Proof.
 Qed.
 
 Lemma packed_good dt shape bw xs :
-  bitwidth dt = Some bw -> bw < 8 -> in_range bw xs -> length xs = nsize shape -> shape_size shape < 2 ^ 53 ->
+  bitwidth dt = Some bw -> bw < 8 -> in_range bw xs -> length xs = nsize shape ->
   good_numpy dt xs (RPacked dt shape (le_pack dt xs)) /\ good_bytes dt xs (RPacked dt shape (le_pack dt xs)).
 Proof.
-  intros H Hb R L LS.
+  intros H Hb R L.
   assert (PR : packed_raw dt shape (le_pack dt xs) = Ok (le_pack dt xs)).
-  { unfold packed_raw. rewrite H, (nbytes_code_exact bw _ LS), (le_pack_length dt bw xs H), (size_of_logical shape xs L), N.eqb_refl. reflexivity. }
+  { unfold packed_raw. rewrite H, (nbytes_code_exact bw _), (le_pack_length dt bw xs H), (size_of_logical shape xs L), N.eqb_refl. reflexivity. }
   split.
   - exists xs. split; [| apply (elem_id dt bw xs H R)].
     cbn [r_numpy]. unfold packed_numpy. rewrite PR. cbn [res_bind]. rewrite H, <- L.
